@@ -65,6 +65,12 @@ pub struct FaultyBackend<W> {
     pub faults_hit: u64,
 }
 
+impl<W> Default for FaultyBackend<W> {
+    fn default() -> Self {
+        Self::new(None, None)
+    }
+}
+
 impl<W> FaultyBackend<W> {
     pub fn new(fail_at: Option<u64>, capacity: Option<usize>) -> Self {
         FaultyBackend {
